@@ -37,6 +37,10 @@ type Fix struct {
 	Mnem  []string
 	Ext   [][common.ExtendedSeedSize]uint8
 	Desc  [][]byte
+	// XSigW: byte strings with the exact size of a height-4 signature under
+	// Winternitz parameter 4 / 256 (not valid signatures: the point is that the
+	// size checks pass and the whole verification path runs with that parameter)
+	XSigW map[uint32][]byte
 	Priv  []*xmss.XMSS // pristine private keys, one per task slot; cloned per run
 	// keep: addresses reachable from more than one pristine private key, i.e.
 	// memory the library shares between key objects; clones keep sharing it
@@ -152,6 +156,13 @@ func buildFixtures(seed uint64) *Fix {
 			}
 		}
 	}
+	f.XSigW = map[uint32][]byte{}
+	for _, wk := range [][2]uint32{{4, 133 * 32}, {256, 34 * 32}} {
+		b := make([]byte, 4+32+int(wk[1])+4*32)
+		r.Bytes(b)
+		b[0], b[1], b[2], b[3] = 0, 0, 0, byte(r.Intn(16))
+		f.XSigW[wk[0]] = b
+	}
 	f.Addr = append(f.Addr, f.Dil[0].GetAddress())
 	var garbage [common.AddressSize]uint8
 	r.Bytes(garbage[:])
@@ -206,6 +217,8 @@ func (f *Fix) sharedDigest() string {
 	for _, s := range f.XSig {
 		h.Write(s.sig)
 	}
+	h.Write(f.XSigW[4])
+	h.Write(f.XSigW[256])
 	for _, d := range f.Desc {
 		h.Write(d)
 	}
@@ -323,7 +336,11 @@ func (f *Fix) exec(c Call, priv *xmss.XMSS, h *held) (res string) {
 		// mostly the standard parameter; sometimes another Winternitz parameter
 		// (the signature then has the wrong size: the refusal is the result)
 		w := []uint32{16, 16, 16, 4, 256}[b%5]
-		return digestOf(bb(xmss.VerifyWithCustomWOTSParamW(f.Msgs[s.msg], s.sig, f.XPK[s.pk], w)))
+		sig := s.sig
+		if ws, ok := f.XSigW[w]; ok && b%2 == 0 { // well-sized input for that parameter
+			sig = ws
+		}
+		return digestOf(bb(xmss.VerifyWithCustomWOTSParamW(f.Msgs[s.msg], sig, f.XPK[s.pk], w)))
 	case "xaddr":
 		ad := xmss.GetXMSSAddressFromPK(f.XPK[a%len(f.XPK)])
 		return digestOf(ad[:])
